@@ -99,13 +99,22 @@ def run(pid, tier, seed, ctx):
         buckets.setdefault("var", []).append(f"C19 var x{hexs(n)}")
         for b in "01":
             buckets.setdefault("mk.literal", []).append(f"C19 mk.literal x{hexs(n)} {b}")
+    # names that text forms could mangle (quotes, backslashes, control and non-printing characters)
+    for n in ['say "x"', "a\\b", "t\tab", "nb\u00a0sp", "e\u0301", "x\u200by", "new\nline", "'q'"]:
+        lit = f"(l n{hexs(n)})"
+        for op in ("repr", "str", "inputs", "nnf"):
+            buckets.setdefault(op, []).insert(0, f"C19 {op} {lit}")
+        buckets.setdefault("repr", []).insert(0, f"C19 repr (& {lit} (! {lit}))")
+        buckets.setdefault("var", []).append(f"C19 var x{hexs(n)}")
+        buckets.setdefault("mk.literal", []).append(f"C19 mk.literal x{hexs(n)} 1")
     buckets["mk.const"] = ["C19 mk.const 0", "C19 mk.const 1"]
     buckets["bool"] = ["C19 bool 0", "C19 bool 1"]
     requests = []
     for op, lines in sorted(buckets.items()):
-        lines = sorted(set(lines))
-        rng.shuffle(lines)
-        requests += lines[:per_op]
+        head = [l for l in dict.fromkeys(lines[:40])]      # hand-written requests come first, in order
+        rest = sorted(set(lines) - set(head))
+        rng.shuffle(rest)
+        requests += (head + rest)[:per_op]
     rust = subprocess.run([HARNESS, "exec19"], input="\n".join(requests) + "\n", stdout=subprocess.PIPE,
                           stderr=subprocess.PIPE, text=True, env=ctx["ENV"], timeout=7200)
     py = subprocess.run([sys.executable, os.path.join(ROOT, "tools", "pyharness.py"), pydir],
